@@ -4,12 +4,13 @@ import Olla.Spec.C18
 
 /-!
 C18 driver. One case = one scenario played in real time by the timing harness (times in µs since the
-scenario's T0), or one leak measurement of a batch.
+scenario's T0), one leak measurement of a batch, or one history: many scenarios following and overlapping
+each other on one long-lived rig, each judged like a scenario on a fresh rig.
 
 The model is run on the schedule THE BACKEND RECORDED (actual send times), not on the planned one, so that
 scheduling delays of the harness itself cannot masquerade as engine behaviour. Pauses are classified
 `short` (≤ T − 40 ms), `long` (≥ T + 100 ms) or ambiguous; a case with an ambiguous pause is not judged.
-Durations are compared against bounds with 100 ms slack, never exactly.
+Durations are compared against bounds with slack (100 ms, or T/10 where that is more), never exactly.
 -/
 namespace Olla.Driver.C18
 open Lean Olla.Driver Olla.Model.Streaming Olla.Spec.C18
@@ -56,11 +57,26 @@ def enumFrom {α : Type} : Nat → List α → List (Nat × α)
   | _, [] => []
   | n, x :: xs => (n, x) :: enumFrom (n + 1) xs
 
-def handleScenario (case : Nat) (j : Json) : IO Unit := do
+/-- One verdict, before it is printed (a history is judged request by request with `judgeScenario`). -/
+structure V where
+  agree : Bool
+  spec : Bool
+  branch : String
+  sig : String := ""
+  note : String := ""
+  model : Json := Json.null
+
+/-- The verdict on one scenario + observation: the property's clauses on what the implementation did, and the comparison
+    with the model run on the recorded schedule. The same function judges a scenario played on a fresh rig and a request
+    of a history on a long-lived rig. -/
+def judgeScenario (j : Json) : V := Id.run do
   let sc := parseSc (jget j "scenario")
   let impl := jget j "impl"
+  -- measuring slack: 100 ms, or a tenth of the read timeout where that is more (the rigs of the histories run with read
+  -- timeouts of 1–2 s; "within the read timeout plus scheduling slack" is not meant to forbid a timer of 3 % granularity)
+  let slack : Int := max slackUs (sc.T / 10)
   if jstr (jget impl "start_err") != "" then
-    emit case false true "start-error" "" (jstr (jget impl "start_err")); return
+    return { agree := false, spec := true, branch := "start-error", note := jstr (jget impl "start_err") }
   let be := jget impl "backend"
   let cl := jget impl "client"
   let got := jbool (jget be "got")
@@ -79,9 +95,9 @@ def handleScenario (case : Nat) (j : Json) : IO Unit := do
   let abortedLate := cEnd == "aborted" && (endKind == "eof" || endKind == "reset") && endUs ≤ cAbortUs
   let aborted := cEnd == "aborted" && !abortedLate
   if abortedLate then
-    emit case true true "trivial" "" s!"client closed at {cAbortUs}us, after the backend had finished ({endKind} at {endUs}us)"; return
+    return { agree := true, spec := true, branch := "trivial", note := s!"client closed at {cAbortUs}us, after the backend had finished ({endKind} at {endUs}us)" }
   if !got then
-    emit case false true "request-never-reached-backend" "" s!"client status {cStatus} end {cEnd}"; return
+    return { agree := false, spec := true, branch := "request-never-reached-backend", note := s!"client status {cStatus} end {cEnd}" }
   -- what the backend actually sent, when
   let sent : List Sent := (enumFrom 0 chunksJ).map (fun (k, c) =>
     { t := jint (jget c "send_us"), fill := fillOf k, size := (sc.steps.getD k (0, 0)).2, acked := jbool (jget c "acked") })
@@ -98,13 +114,11 @@ def handleScenario (case : Nat) (j : Json) : IO Unit := do
     -- neither engine puts a deadline on the wait for response headers (no ResponseHeaderTimeout; read_timeout
     -- only governs body reads): the model has no loop to run. Observed, compared, not demanded by the property text.
     if aborted then
-      let ok := abortOK (graceUs + slackUs) cAbortUs torn
-      emit case (abortOK slackUs cAbortUs torn) ok s!"{sc.engine}.before-headers.abort" (if ok then "" else s!"{sc.engine}-abort-not-propagated")
-        s!"client aborted at {cAbortUs}us before any header; backend saw teardown at {tornUs}us"
+      let ok := abortOK (graceUs + slack) cAbortUs torn
+      return { agree := abortOK slack cAbortUs torn, spec := ok, branch := s!"{sc.engine}.before-headers.abort", sig := (if ok then "" else s!"{sc.engine}-abort-not-propagated"), note := s!"client aborted at {cAbortUs}us before any header; backend saw teardown at {tornUs}us" }
     else
       let hung := endKind == "released"
-      emit case hung true s!"{sc.engine}.before-headers.stall" "" s!"backend held the request without answering: end_kind {endKind} at {endUs}us, client end {cEnd} status {cStatus} at {cEndUs}us (no deadline applies before headers)"
-    return
+      return { agree := hung, spec := true, branch := s!"{sc.engine}.before-headers.stall", note := s!"backend held the request without answering: end_kind {endKind} at {endUs}us, client end {cEnd} status {cStatus} at {cEndUs}us (no deadline applies before headers)" }
   -- ---------------------------------------------------------------- recorded schedule for the model
   let sendTimes := sent.map (·.t)
   let lastT := sendTimes.getLast?.getD hdrUs
@@ -132,10 +146,10 @@ def handleScenario (case : Nat) (j : Json) : IO Unit := do
   let mWrites := (r.out.filter (fun e => match e.2 with | .write _ => true | _ => false)).length
   -- ---------------------------------------------------------------- timing classification
   let allGaps := recGaps ++ (if fused then [] else match endKind with | "eof" => [endUs - lastT] | "reset" => [endUs - lastT] | _ => [])
-  let ambiguous := allGaps.any (fun g => g > sc.T - shortMarginUs && g < sc.T + slackUs)
+  let ambiguous := allGaps.any (fun g => g > sc.T - shortMarginUs && g < sc.T + slack)
   let allShort := allGaps.all (fun g => g ≤ sc.T - shortMarginUs)
   if ambiguous then
-    emit case true true "timing-ambiguous" "" s!"a recorded pause falls between T-40ms and T+100ms: {allGaps}"; return
+    return { agree := true, spec := true, branch := "timing-ambiguous", note := s!"a recorded pause falls between T-40ms and T+100ms: {allGaps}" }
   -- ---------------------------------------------------------------- implementation's outcome class
   let hung := endKind == "released"
   let clientEnded := cEnd == "clean" || cEnd == "closed" || cEnd == "reset"
@@ -168,8 +182,8 @@ def handleScenario (case : Nat) (j : Json) : IO Unit := do
   -- end time
   let timeAgree := match r.outcome with
     | none => true
-    | some .clientGone => abortOK slackUs cAbortUs torn
-    | some _ => if aborted then abortOK slackUs cAbortUs torn else clientEnded && (cEndUs - r.endT ≤ slackUs) && (r.endT - cEndUs ≤ slackUs)
+    | some .clientGone => abortOK slack cAbortUs torn
+    | some _ => if aborted then abortOK slack cAbortUs torn else clientEnded && (cEndUs - r.endT ≤ slack) && (r.endT - cEndUs ≤ slack)
   let agree := classAgree && bytesAgree && liveAgree && timeAgree
   -- ---------------------------------------------------------------- the property on the implementation's output
   -- chunks that were due while the stream was live: sent before the first long pause and before the abort
@@ -180,8 +194,8 @@ def handleScenario (case : Nat) (j : Json) : IO Unit := do
   -- (translated streams: that the events are the right ones is C13; here only that the stream ended cleanly)
   let s2 := if anth then (!completed || (cEnd == "clean" && cStatus == 200)) else wholeOK completed sent (cEnd == "clean") cStatus cRle
   let fin : Option Int := if hung || !clientEnded then none else some cEndUs
-  let s3 := aborted || stallOK (sc.T + slackUs) hdrUs sendTimes fin
-  let s4 := !aborted || abortOK (graceUs + slackUs) cAbortUs torn
+  let s3 := aborted || stallOK (sc.T + slack) hdrUs sendTimes fin
+  let s4 := !aborted || abortOK (graceUs + slack) cAbortUs torn
   -- (only a backend that has kept EVERY pause short is "merely pausing"; after a long pause the stall clause judges)
   let s5 := recGaps.any (fun g => g > sc.T - shortMarginUs) ||
     notCutOK (sc.T - shortMarginUs) lastT (if endKind == "torn" && !aborted then torn else none)
@@ -194,15 +208,19 @@ def handleScenario (case : Nat) (j : Json) : IO Unit := do
     else if !s2 then s!"{sc.engine}-completed-stream-not-whole"
     else s!"{sc.engine}-abort-not-propagated"
   let branch := (if anth then "translated." else "") ++ s!"{sc.engine}.{outcomeStr r.outcome}.{if st then "live" else "buffered"}" ++ (if aborted then ".abort" else "") ++
-    (if allGaps.any (fun g => g ≥ sc.T + slackUs) then ".long-pause" else "")
+    (if allGaps.any (fun g => g ≥ sc.T + slack) then ".long-pause" else "")
   let note :=
     if spec && agree then "" else
       s!"{sc.engine}{if anth then " [anthropic translation route]" else ""} profile {sc.profile}{if sc.forced then "(forced)" else "(wired)"} {sc.ct} T={sc.T}us: pauses {allGaps}us, ending {sc.ending}; " ++
       s!"impl: class {implClass}, client end '{cEnd}' at {cEndUs}us status {cStatus} bytes {rleLen cRle}, acks {sent.map (·.acked)}, backend end '{endKind}' at {endUs}us torn {tornUs}us; " ++
       s!"model({if sc.engine == "olla" then reprStr active else "sherpa"}): {outcomeStr r.outcome} at {r.endT}us, {mWrites} writes {rleLen mWritten} bytes, streaming={st}; " ++
       s!"clauses live={s1} whole={s2} stall={s3} abort={s4} not-cut={s5}; agree class={classAgree} bytes={bytesAgree} live={liveAgree} time={timeAgree}"
-  emit case agree spec branch sig note
-    (Json.mkObj [("outcome", toJson (outcomeStr r.outcome)), ("end_us", toJson r.endT), ("writes", toJson mWrites), ("streaming", toJson st)])
+  return { agree := agree, spec := spec, branch := branch, sig := sig, note := note, model := Json.mkObj [("outcome", toJson (outcomeStr r.outcome)), ("end_us", toJson r.endT), ("writes", toJson mWrites), ("streaming", toJson st)] }
+
+def handleScenario (case : Nat) (j : Json) : IO Unit := do
+  let v := judgeScenario j
+  emit case v.agree v.spec v.branch v.sig v.note v.model
+
 
 def handleLeak (case : Nat) (j : Json) : IO Unit := do
   let i := jget j "impl"
@@ -210,11 +228,51 @@ def handleLeak (case : Nat) (j : Json) : IO Unit := do
   emit case true ok "leak-measurement" (if ok then "" else "leak-at-quiescence")
     (if ok then "" else s!"after {jnat (jget i "scenarios")} scenarios and {jint (jget i "settle_ms")}ms settling: goroutines {jint (jget i "go_base")} -> {jint (jget i "go_after")}, open backend connections {jint (jget i "conns_base")} -> {jint (jget i "conns_after")}")
 
+def bump (k : String) : List (String × Nat) → List (String × Nat)
+  | [] => [(k, 1)]
+  | (k', n) :: rest => if k == k' then (k', n + 1) :: rest else (k', n) :: bump k rest
+
+/-- A history: one long-lived rig (one stack, one engine instance, the process-wide pools) taken through phases of
+    requests that follow and overlap each other. Every request is a scenario with its own T0 and its own observation and
+    is judged by `judgeScenario` — the clauses of the property are per request, whatever the instance has served before —
+    and the history satisfies the property iff every judged request does (`historyOK`). A request that the proxy did not
+    route to the backend at all (the endpoint had just been taken out by an upstream reset, say) is not C18's subject
+    and is not judged; a history of which less than half could be judged counts as a broken correspondence. -/
+def handleHistory (case : Nat) (j : Json) : IO Unit := do
+  let engine := jstr (jget j "engine")
+  let h := jget j "history"
+  if jstr (jget (jget j "impl") "start_err") != "" then
+    emit case false true "start-error" "" (jstr (jget (jget j "impl") "start_err")); return
+  let steps := (enumFrom 0 (jarr (jget h "phases"))).flatMap (fun (pi, p) =>
+    (enumFrom 0 (jarr (jget p "reqs"))).map (fun (ri, q) => (pi, ri, p, q, judgeScenario q)))
+  let notJudged (v : V) : Bool := v.branch == "request-never-reached-backend" || v.branch == "start-error"
+  let judged := steps.filter (fun (_, _, _, _, v) => !notJudged v)
+  let counts := steps.foldl (fun acc (_, _, _, _, v) => bump v.branch acc) []
+  let agree := judged.all (fun (_, _, _, _, v) => v.agree)
+  let spec := historyOK (judged.map (fun (_, _, _, _, v) => v.spec))
+  let enough := judged.length * 2 ≥ steps.length && steps.length > 0
+  let badSpec := judged.filter (fun (_, _, _, _, v) => !v.spec)
+  let badAgree := judged.filter (fun (_, _, _, _, v) => v.spec && !v.agree)
+  let sig := match badSpec with | (_, _, _, _, v) :: _ => v.sig | [] => ""
+  let describe := fun ((pi, ri, p, q, v) : Nat × Nat × Json × Json × V) =>
+    s!"phase {pi} ({jstr (jget p "pattern")}, before it: {jstr (jget p "between")}{if jstr (jget p "mid_op") != "" then ", during it: " ++ jstr (jget p "mid_op") else ""}) " ++
+    s!"request {ri} [{jstr (jget q "role")}, launched {jint (jget q "delay_ms")}ms after {if jint (jget q "after") < 0 then "the phase began" else s!"request {jint (jget q "after")} [{jstr (jget ((jarr (jget p "reqs")).getD (jint (jget q "after")).toNat Json.null) "role")}] was over"}, " ++
+    s!"{jint (jget q "start_us")}us into the history; steps {(jarr (jget (jget q "scenario") "steps")).map (fun s => (jint (jget s "gap_ms"), jnat (jget s "size")))} ending {jstr (jget (jget q "scenario") "ending")}]: {v.note}"
+  let note :=
+    if spec && agree && enough then "" else
+      s!"history {jstr (jget h "name")} on ONE long-lived {engine} rig (read timeout {jnat (jget j "timeout_ms")}ms, profile {jstr (jget h "profile")}), {steps.length} requests in {(jarr (jget h "phases")).length} phases, {judged.length} judged: " ++
+      s!"{badSpec.length} violate the property, {badAgree.length} differ from the model" ++ (if enough then "" else "; LESS THAN HALF of the requests could be judged") ++ ". " ++
+      " || ".intercalate ((badSpec ++ badAgree).take 3 |>.map describe)
+  emit case (agree && enough) spec s!"history.{engine}" sig note
+    (Json.mkObj [("requests", toJson steps.length), ("judged", toJson judged.length),
+      ("branches", Json.mkObj (counts.map (fun (k, n) => (k, toJson n))))])
+
 def handle (j : Json) : IO Unit := do
   let case := jnat (jget j "case")
   match jstr (jget j "kind") with
   | "scenario" => handleScenario case j
   | "leak" => handleLeak case j
+  | "history" => handleHistory case j
   | "uptime" =>
     -- a stream in flight when the engine's periodic clean-up pass runs (minutes after the last request started): the
     -- backend sends it to its end, the client stays: it is delivered whole
